@@ -4,3 +4,15 @@ claim(
     "Part A enumerates every integer argument combination in a bounded box and compares each stock predicate with the arithmetic definition in the property; Part B runs generated nested-loop programs under constrained selectors and checks the delivered stream equals the unconstrained stream filtered by the reference predicate, and that overrides apply under the same condition. Held-on-observed only.",
     "Trusts: CPython integer arithmetic; that the unconstrained selector's stream is correct (that is C02/C03's job); throttle is only checked for plumbing.",
 )
+claim(
+    "C15",
+    "differential monitor over enumerated + random abstract selectors rendered in every documented spelling; reference desugarer; identity (interning) oracle",
+    "Every abstract selector from a bounded grammar (depth<=2 quick / <=3 thorough, width<=3, all operand kinds) is rendered in 11 documented spellings x 3 whitespace variants; all must parse to one interned object whose structure equals an independent reference desugaring, whose focus is the marked element, and which is identical to an object built through the public constructors. Sampled + systematic exploration, not a proof over the unbounded grammar.",
+    "Trusts my reading of the documented notation (vlib/selgen.py); capture reorderings are not claimed equivalent; select()-level identity only for literal '=' values.",
+)
+claim(
+    "C18",
+    "exhaustive short-string enumeration + grammar-based mutation fuzzing with an outcome-class oracle and a logical step-bound monitor on the precedence comparator",
+    "All strings of <=4 (quick) / <=5 (thorough) tokens over a 34-token alphabet are compiled with parse() (and select() on a deterministic slice), plus token-level mutations of valid selectors through parse/select/probing; every outcome must be a Selector, SyntaxError with offset, SelectorError, or the documented TypeError; termination is decided by a step counter on the parser's comparator. Semantically bad templates must be refused at probe creation/activation. Exhaustive within the stated length bound only.",
+    "CodeNotFoundError is accepted from select()/probing() for unresolvable absolute references (unit-tested behaviour); ValueError('Unsupported focus pattern') accepted from probing(); environment callables are total.",
+)
